@@ -58,8 +58,8 @@ def construct_expression_tree(
 
     # This means that we have a list as a leaf --> a function that we need to create.
     if all([isinstance(item, str) for item in expression_ast]):
-        if expression_ast[0] in LEGAL_NUMERIC_OPERATORS:
-            # Probably someone trying to perform numerical operation on constants.
+        if expression_ast[0] in LEGAL_NUMERICAL_EXPRESSIONS:
+            # Probably someone trying to perform numerical operation on (or to compare) constants.
             first_operand = float(expression_ast[1])
             second_operand = float(expression_ast[2])
             node = AnyNode(
